@@ -81,6 +81,29 @@ def _ctor_only(ix, f):
     return bool(sites) and all(g.name == '__init__' for g in sites)
 
 
+def _licensed_through_callers(ix, f, attr, depth=0):
+    """a function that is new to the reviewed tree (an extracted helper) inherits the licence of the reviewed functions
+    it is called from: every `self.<name>(...)` / `<name>(...)` call site must sit in a function that holds the licence
+    for `attr` (or in another new helper that inherits it)"""
+    import ast as _ast
+    from sa.helpers import known_functions
+    known = known_functions()
+    if known is None or f.site in known or depth > 2:
+        return False
+    callers = []
+    for g in ix.all_functions():
+        if g.node is f.node:
+            continue
+        for n in _ast.walk(g.node):
+            if isinstance(n, _ast.Call) and ((isinstance(n.func, _ast.Attribute) and n.func.attr == f.name) or
+                                            (isinstance(n.func, _ast.Name) and n.func.id == f.name)):
+                callers.append(g)
+                break
+    if not callers:
+        return False
+    return all((g.qualname, attr) in MEMO_ALLOW or _licensed_through_callers(ix, g, attr, depth + 1) for g in callers)
+
+
 def _memo_value_depends(f, attr):
     """does a value assigned to `attr` inside f mention self.* state or a parameter?
     (a constant default cannot carry history)"""
@@ -329,7 +352,7 @@ def memo_obligation(ix, R, oid, relpaths, what, skip=('__init__', 'init')):
                 if memo and _ctor_only(ix, f):
                     continue
                 for attr, cond in sorted(memo.items()):
-                    if (f.qualname, attr) in MEMO_ALLOW:
+                    if (f.qualname, attr) in MEMO_ALLOW or _licensed_through_callers(ix, f, attr):
                         continue
                     if not _memo_value_depends(f, attr):
                         continue
